@@ -68,6 +68,7 @@ type ByzScenario struct {
 	DeadlineMs int     `json:"deadlineMs"`
 	Announce   string  `json:"announce"`
 	QuietP     bool    `json:"quietP"`
+	VictimCheckpoint int `json:"victimCheckpoint"` // >0: the victim is bootstrapped with NewDBStoreAtCheckpoint at this height of its own chain
 	Flood      *FloodSpec `json:"flood"` // in-flight budget flood by the Byzantine peer(s), then the honest peer mines and relays
 	Retrieve   bool    `json:"retrieve"` // instant sync: the victim bootstraps with syncer.RetrieveCheckpoint from the Byzantine peer(s)
 }
@@ -337,6 +338,13 @@ func RunByz(sc ByzScenario, slot int) (out *ByzOutcome) {
 		o := NodeOpts{Name: name, IP: ip, Tip: tip, Quiet: quiet, Timeouts: 2 * time.Second}
 		if sc.Flood != nil && name == "v" {
 			o.MaxInflightSubnet, o.SubnetV4Bits = sc.Flood.Cap, 24
+		}
+		if sc.VictimCheckpoint > 0 && name == "v" {
+			cb := w.ChainOf(tip)
+			if sc.VictimCheckpoint > len(cb) {
+				return nil, fmt.Errorf("checkpoint height %d above the victim's tip", sc.VictimCheckpoint)
+			}
+			o.Checkpoint = w.Name(cb[sc.VictimCheckpoint-1].ID())
 		}
 		return NewNode(w, o, start, roles)
 	}
@@ -730,7 +738,7 @@ func RunByz(sc ByzScenario, slot int) (out *ByzOutcome) {
 	}
 	out.Events = append(out.Events, Event{Op: "Tree", Tree: w.TreeJSON(), Req: int(sc.Require), Why: sc.ID, Kind: strings.Join(kinds, "+")})
 	for i, n := range nodes {
-		out.Events = append(out.Events, Event{Op: "Node", Node: n.Opts.Name, Known: initKnown[i], Tip: initTips[i], Base: "g"})
+		out.Events = append(out.Events, Event{Op: "Node", Node: n.Opts.Name, Known: initKnown[i], Tip: initTips[i], Base: n.Base})
 		evs := n.Rec.Events()
 		out.Events = append(out.Events, evs...)
 		out.Events = append(out.Events, Event{Op: "End", Node: n.Opts.Name, Tip: out.Tips[n.Opts.Name]})
